@@ -26,6 +26,7 @@ pub fn core_alphabet() -> Vec<BOp> {
         BOp::TypePointer(Some(40), 0),
         BOp::SetVersion,
         BOp::Continue,
+        BOp::Reload,
     ]
 }
 
